@@ -356,3 +356,18 @@ func (d *f7dec) BadF7Stale(start uint16, n int) []f7ack {
 	}
 	return res
 }
+
+// GoodF1LastBelow tests the length from below before taking the last byte; BadF1LastUpperOnly only bounds it from above.
+func GoodF1LastBelow(p []byte) byte {
+	if len(p) > 1460 || len(p) == 0 {
+		return 0
+	}
+	return p[len(p)-1]
+}
+
+func BadF1LastUpperOnly(p []byte) byte {
+	if len(p) > 1460 {
+		return 0
+	}
+	return p[len(p)-1]
+}
